@@ -121,7 +121,7 @@ Fails(e, x) ==
     LET r == Reply(e)
     IN  F(x.class # "miss", e, "INC", "HMAC table lacks an entry the specification needs")
      \o F(x.class # "badhint", e, "INC", "harness step hint is not floor(t/period)")
-     \o F(Returned(r), e, "C10", "operation did not return normally: " \o e.kind)
+     \o F(Returned(r) \/ (x.class = "panics" /\ r.kind = "panic"), e, "C10", "operation did not return normally: " \o e.kind)
      \o FX(Conforms(r, x), e, OwnProp(e), "reply differs from specification, expected class " \o x.class, x)
      \o (IF IsValidate(e) /\ Returned(r)
          THEN F(r.ok <=> ~r.haserr, e, "C13", "ambiguous verdict pair") ELSE <<>>)
@@ -151,6 +151,7 @@ SuiteFails(e) ==
           \o F(y.inlist => ok, e, "C15", "an advertised suite name cannot be instantiated")
           \o F(y.inlist <=> y.known, e, "C15", "the advertised list and the known-suite test disagree")
           \o F((y.known /\ ok) => O!SameCfg(y.fromraws, y.cfg, TRUE), e, "C15", "lookup by name and instantiation disagree")
+          \o F((ok <=> y.mustok) /\ (ok => y.mustcfg = y.cfg), e, "C15", "MustRawSuite and NewRawSuite disagree (one instantiates what the other refuses, or differently)")
 
 (* ---- C17: the five hex request fields ---- *)
 HexFieldFails(e) ==
